@@ -45,7 +45,21 @@ def gen_structured(rng):
                 done.add((a, b))
                 fid += 1
                 dens.append((a, b, fid))
-    return dict(kind=kind, pool=pool, pairs=pairs, embed=embed, dens=dens)
+    adp = None
+    if kind == "eam" and embed and rng.random() < 0.4:
+        # an ADP model: dipole and quadrupole entries are pair-like entries too - the hand edit deletes those that name an unwanted species (round-7 seed C13_11)
+        els_ = [s_ for s_, _ in embed]
+        adp = {"EAM-ADP-Dipole": [], "EAM-ADP-Quadrupole": []}
+        for sec_ in adp:
+            seen_ = set()
+            for _ in range(rng.randint(0, 4)):
+                a, b = rng.choice(pool), rng.choice(pool)
+                if frozenset((a, b)) in seen_:
+                    continue
+                seen_.add(frozenset((a, b)))
+                fid += 1
+                adp[sec_].append((a, b, fid))
+    return dict(kind=kind, pool=pool, pairs=pairs, embed=embed, dens=dens, adp=adp)
 
 
 def render(m, target, keep=None):
@@ -68,6 +82,12 @@ def render(m, target, keep=None):
                     t += "%s : %s\n" % (d[0], eamlib.poly(d[1]))
             elif k((d[0], d[1])):
                 t += "%s->%s : %s\n" % (d[0], d[1], eamlib.poly(d[2]))
+        if target == "eam_adp" and m.get("adp"):
+            for sec_ in ("EAM-ADP-Dipole", "EAM-ADP-Quadrupole"):
+                t += "\n[%s]\n" % sec_
+                for (a, b, f) in m["adp"][sec_]:
+                    if k((a, b)):
+                        t += "%s-%s : %s\n" % (a, b, eamlib.poly(f))
     return t
 
 
@@ -217,6 +237,8 @@ def check(run):
                     dict(potable_file=full, hand_edited_file=edited, mode="exclude" if exclude else "include", species=S, route=route))
 
     def targets_of(m):
+        if m["kind"] == "eam" and m.get("adp"):
+            return ["eam_adp"]
         return PAIR_TARGETS if m["kind"] == "pair" else (["setfl", "DL_POLY_EAM"] if m["kind"] == "eam" else ["setfl_fs", "DL_POLY_EAM_fs"])
     for m in models[: run.n(60, 1000)]:
         e2e(m, rng.choice(targets_of(m)), rng.random() < 0.5, species_set(rng, m, allow_empty=False), rng.choice(["api", "cli"]))
